@@ -265,6 +265,8 @@ def run_case(case, rec):
             rec.nontrivial(["rst", _features(text), case["width"], case["indent"], case["nl"]])
         if out.endswith('"'):
             raise Violation("rst-trailing-quote", f"rst() result ends with a double quote: {out[-20:]!r}", case)
+        if out.endswith("\\"):
+            raise Violation("rst-trailing-backslash", f"rst() result ends with a backslash (it would escape the closing quotes of the docstring): {out[-20:]!r}", case)
         if plain:
             _check_words("rst", _unescape_quotes(text), _unescape_quotes(_strip_guard(text, out)), case)
             body = out
@@ -355,6 +357,8 @@ def _strip_guard(text, out):
     """rst() appends '.' when the converted text ends with a double quote; undo that single
     character for the word comparison (documented behaviour of rst, not a word change)."""
     if out.endswith('".') and text.rstrip().endswith('"'):
+        return out[:-1]
+    if out.endswith("\\.") and text.rstrip().endswith("\\"):       # the same guard for a trailing backslash
         return out[:-1]
     return out
 
